@@ -21,6 +21,8 @@ type property struct {
 	RuleText    string // how obligations are generated
 	Run         func(p *P, r *R)
 	Assumptions []string
+	// QuickConfigs: build configurations analysed already in the quick tier (default: only the default one)
+	QuickConfigs []BuildConfig
 }
 
 var registry = map[string]*property{}
@@ -97,8 +99,19 @@ func runProperty(pr *property, tier, repo, evPath, knownPath string, seed int, n
 		}
 	}()
 	cfgs := []BuildConfig{cfgDefault}
+	cfgs = append(cfgs, pr.QuickConfigs...)
 	if tier == "thorough" {
-		cfgs = append(cfgs, cfgRace, cfgArm64)
+		for _, c := range []BuildConfig{cfgRace, cfgArm64} {
+			have := false
+			for _, x := range cfgs {
+				if x == c {
+					have = true
+				}
+			}
+			if !have {
+				cfgs = append(cfgs, c)
+			}
+		}
 	}
 	all := newR(pr.ID)
 	covered := map[string]bool{}
